@@ -128,13 +128,14 @@ class BankMon(Mon):
                 self.comb += anyhit.eq(Cat(*hits) != 0)
                 b = Signal(name_override="bad_storage_r%d" % r)
                 if s.get("wfd"):
-                    # device write and bus write in the same cycle: either value is accepted -> skip one compare and
-                    # continue from whatever the DUT chose
-                    clash = self.reg(1, "clash_r%d" % r)
-                    base_v = Signal(size)
-                    self.comb += base_v.eq(Mux(clash, o.storage, sh))
-                    self.sync += [clash.eq(o.we & anyhit), sh.eq(base_v)] + stmts
-                    self.comb += b.eq(~clash & (o.storage != sh))
+                    # device write and bus write in the same cycle: the property promises that a bus write changes the addressed bits, so the bus
+                    # word wins over the device value on the bits it addresses (the device value lands on the others): reference = device
+                    # statement first, bus statements after it (last assignment wins)
+                    self.sync += stmts
+                    self.comb += b.eq(o.storage != sh)
+                    clash = Signal(name_override="clash_r%d" % r)
+                    self.comb += clash.eq(o.we & anyhit)
+                    self.clashes = getattr(self, "clashes", []) + [clash]
                 else:
                     self.sync += stmts
                     self.comb += b.eq(o.storage != sh)
